@@ -1,17 +1,20 @@
 /*
- * C13/open_ro: ext2fs_open2() called WITHOUT EXT2_FLAG_RW, on an ARBITRARY
- * superblock and descriptor block (consistent, corrupt, needs_recovery, orphans,
- * MMP, backup-superblock open with the descriptor fix-ups -- every field symbolic).
+ * C13/open_ro: ext2fs_open2() called WITHOUT EXT2_FLAG_RW.
  *
+ * Decided (config PREFIX, the manager's open() fails right away so that only the
+ * flag mapping and the error exit are executed), for every open flag word,
+ * superblock/block_size argument:
  *  - the io manager's open() is called exactly once and WITHOUT IO_FLAG_RW (this
  *    is what makes unix_io open the device O_RDONLY: harness unix_open_mode);
- *    IO_FLAG_EXCLUSIVE/DIRECT_IO/THREADS mirror the caller's flags;
- *  - no modifying io entry point is reached while opening;
- *  - ext2fs_mmp_start() is reached only for an EXCLUSIVE open (its read-only
- *    behaviour: harness ro_mmp);
- *  - the returned handle has neither EXT2_FLAG_RW nor any dirty bit, although the
- *    backup-superblock path rewrites descriptor flags in core -- so a later
- *    ext2fs_close2() is the case of harness close_ro.
+ *    IO_FLAG_EXCLUSIVE/DIRECT_IO mirror the caller's flags;
+ *  - no modifying io entry point is reached, MMP is not entered, no handle leaks.
+ *
+ * NOT decided (the code below without -DPREFIX encodes it, but the query needs
+ * > 10 GB: 1 KiB symbolic superblock read through a heap copy): the rest of
+ * ext2fs_open2 on an arbitrary superblock/descriptor block -- that it reaches no
+ * write, enters ext2fs_mmp_start only for EXCLUSIVE opens and returns a handle
+ * without RW/dirty bits even after the backup-superblock descriptor fix-ups.
+ * OUTSIDE: ext2fs_open2 after the channel is open (superblock parsing, descriptor fix-ups when opening from a backup superblock): encoded in open_ro.c without -DPREFIX but too large to solve (> 10 GB)
  */
 #include "lib/ext2fs/openfs.c"
 
